@@ -266,6 +266,16 @@ func (smi *SegmentMicroIndex) readCmis(blocksToLoad map[uint16]map[string]bool,
 			}
 			offset += sutils.LEN_BLOCK_CMI_SIZE + sutils.LEN_BLKNUM_CMI_SIZE // for cmilenHolder (4) and blkNum (2)
 			cmilen := utils.BytesToUint32LittleEndian(bb[0:sutils.LEN_BLOCK_CMI_SIZE])
+			// the length comes from the file: it covers at least the blkNum and at most the rest of the file
+			fileInfo, err := fd.Stat()
+			if err != nil {
+				log.Errorf("readCmis: failed to stat fname=%v, err=[%+v], continuing with rest cmis", fName, err)
+				break
+			}
+			if cmilen < sutils.LEN_BLKNUM_CMI_SIZE || int64(cmilen) > fileInfo.Size() {
+				log.Errorf("readCmis: invalid cmilen=%v in fname=%v of size %v, continuing with rest cmis", cmilen, fName, fileInfo.Size())
+				break
+			}
 			cmilen -= sutils.LEN_BLKNUM_CMI_SIZE // for the blkNum(2)
 			cmbuf = utils.ResizeSlice(cmbuf, int(cmilen))
 
